@@ -97,7 +97,7 @@ NETS_T = {
                 'amm': {'NH3': 1.0, 'CO2': 1.0, 'H2': 0.5}}),
 }
 # bundled thermdat network of the repository's own test (real temperature dependence); only at
-# temperatures where its G/RT values span <= 60 (50.2 at 1500 K, 58.5 at 1300 K)
+# temperatures where its G/RT values span <= 60 (50.2 at 1500 K, 58.0 at 1300 K)
 BUNDLED = 'PROPANE10'
 BUNDLED_FILE = os.path.join('pmutt', 'tests', 'equilibrium', 'thermdat_equilibrium_unittest.txt')
 BUNDLED_SPECIES = ['CH3CH2CH3', 'H2O', 'H2', 'CH2CHCH3', 'CH4', 'CHCH', 'CH2CH2', 'CH3CH3', 'CO2', 'CO']
